@@ -9,3 +9,5 @@ for s in $SEEDS; do for c in $IDS; do
   VERIF_SEED=$s ./check $c --tier $TIER > /var/tmp/upverif-runall/$c-$s.log 2>&1; rc=$?
   if [ $rc -ne 0 ]; then echo "FAIL $c seed=$s rc=$rc: $(grep -E 'VIOLATION|HARNESS|Traceback' /var/tmp/upverif-runall/$c-$s.log | head -2 | cut -c1-200)"; fi
 done; echo "seed $s done"; done
+# committed records: generated MANIFEST up to date, evidence of every check valid for its claimed level
+/venv/bin/python harness/consistency.py
